@@ -91,6 +91,8 @@ func (g *Gateway) httpConnect(w http.ResponseWriter, r *http.Request) {
 }
 
 func (g *Gateway) extractHostname(host string) (hostname string, err error) {
+	// hostnames are case-insensitive, normalize before matching root domains
+	host = strings.ToLower(host)
 	if net.ParseIP(host) != nil {
 		err = fmt.Errorf("gateway: hostname cannot be IP")
 		return
@@ -109,7 +111,6 @@ func (g *Gateway) extractHostname(host string) (hostname string, err error) {
 	} else {
 		hostname = host
 	}
-	hostname = strings.ToLower(hostname)
 	return
 }
 
